@@ -49,6 +49,8 @@ func (f *Frame) clone() *Frame {
 }
 
 type Exec struct {
+	frameAllows []frameAllow // heap part of the verified function's modifies clause, evaluated at entry
+	noFrame     bool
 	P        *Program
 	top      *ssa.Function
 	topKey   string
@@ -699,7 +701,19 @@ func (x *Exec) simple(fr *Frame, st *State, in ssa.Instruction) bool {
 	case *ssa.BinOp:
 		x.binop(fr, st, v)
 	case *ssa.Store:
-		x.store(fr, st, in, x.get(fr, st, v.Addr), x.get(fr, st, v.Val))
+		{
+			p := x.get(fr, st, v.Addr)
+			if p.K == VPtr && p.Ptr != nil {
+				prefix, _ := pathPrefix(p.Ptr.Root, p.Ptr.Path)
+				switch p.Ptr.Base {
+				case PObj:
+					x.checkHeapWrite(fr, st, in, heapTypeKey(p.Ptr.Root)+"#"+prefix, p.T, "store")
+				case PElem:
+					x.checkHeapWrite(fr, st, in, "[]"+heapTypeKey(p.Ptr.Root)+"#"+prefix, p.Ptr.Arr, "store")
+				}
+			}
+			x.store(fr, st, in, p, x.get(fr, st, v.Val))
+		}
 	case *ssa.Extract:
 		t := x.get(fr, st, v.Tuple)
 		if t.K == VTuple {
@@ -1339,6 +1353,7 @@ func (x *Exec) mapUpdate(fr *Frame, st *State, v *ssa.MapUpdate) {
 		return
 	}
 	x.mustNot(fr, st, v, Eq(m.T, Num(0)), "nil-map-write")
+	x.checkHeapWrite(fr, st, v, "map:"+heapTypeKey(v.Map.Type())+"#", m.T, "map-update")
 	kt := k.leaves()[0]
 	st.setHeap(hk, Store(has, m.T, Store(Select(has, m.T), kt, TrueT)))
 	_, et := mapTypes(v.Map.Type())
